@@ -909,6 +909,21 @@ def glue_greenback() -> None:
 
         customize(functools.partial.__call__, hide=True)
 
+    def greenlets_down_to_await(frame: Frame, child_greenlet: Any) -> Any:
+        # The await_() that the portal is waiting on may have been made
+        # by a greenlet that the portal's child greenlet started, rather
+        # than by the child itself; greenback remembers that one as
+        # resume_greenlet. Its parents up to the child are each suspended
+        # in a switch() into the next.
+        chain = []
+        glet = frame.pyframe.f_locals.get("resume_greenlet")
+        while glet is not None and glet is not child_greenlet and len(chain) < 1000:
+            chain.append(glet)
+            glet = glet.parent
+        if glet is child_greenlet and chain:
+            return [child_greenlet, *reversed(chain)]
+        return child_greenlet
+
     if hasattr(greenback._impl, "trampoline"):  # pragma: no branch
 
         @elaborate_frame.register(greenback._impl.trampoline)
@@ -944,7 +959,7 @@ def glue_greenback() -> None:
         if gr_frame is not None:  # pragma: no branch
             # Yep; switch to walking the greenlet stack, since orig_coro
             # will look "running" but it's not on any thread's stack.
-            return child_greenlet
+            return greenlets_down_to_await(frame, child_greenlet)
         elif orig_coro is not None:  # pragma: no cover
             # No greenlet, so child is suspended at a regular await.
             # Continue the traceback by walking the coroutine's frames.
@@ -969,7 +984,7 @@ def glue_greenback() -> None:
             if getattr(child_greenlet, "gr_frame", None) is not None:
                 # The sync function is suspended in an await_();
                 # continue tracing into it via the greenlet stack
-                return child_greenlet
+                return greenlets_down_to_await(frame, child_greenlet)
             return None
 
     @elaborate_frame.register(greenback.await_)
